@@ -23,11 +23,22 @@ func (fx *FX) execInstr(st *State, in ssa.Instruction) {
 			if _, dup := fx.names[id.Name]; !dup {
 				fx.names[id.Name] = x.X
 			}
+			if !x.IsAddr {
+				if _, isParam := x.X.(*ssa.Parameter); !isParam {
+					if _, have := fx.vals[x.X]; have {
+						fx.bindName(st, id.Name, x.X)
+					}
+				}
+			}
 		}
 	case *ssa.Alloc:
 		elem := x.Type().(*types.Pointer).Elem()
 		r := fx.allocObj(st, x.Comment, elem)
 		fx.vals[x] = VPtr{Ref: r, Off: num(0), Elem: elem}
+		if fx.privateAlloc(x) {
+			st.Priv[x] = [2]T{st.H, st.Hs}
+			fx.privByRef[r.S] = x
+		}
 		if x.Comment != "" {
 			if _, dup := fx.names[x.Comment]; !dup {
 				fx.names[x.Comment] = x
@@ -119,7 +130,9 @@ func (fx *FX) execInstr(st *State, in ssa.Instruction) {
 		fx.nilCheck(st, p.Ref, x.Pos(), "store")
 		fx.writeCheck(st, p.Ref, rootOf(x.Addr), x.Pos(), "store")
 		fx.storeLeaves(st, p.Ref, p.Off, x.Val.Type(), flatten(fx.val(x.Val)))
-		fx.labelStore(x.Addr, x.Val)
+		if a := fx.privRoot(x.Addr); a != nil {
+			st.Priv[a] = [2]T{st.H, st.Hs}
+		}
 	case *ssa.UnOp:
 		fx.execUnOp(st, x)
 	case *ssa.BinOp:
@@ -265,6 +278,14 @@ func (fx *FX) execUnOp(st *State, x *ssa.UnOp) {
 			s0 := st.clone()
 			s0.H, s0.Hs = fx.entry.H, fx.entry.Hs
 			fx.vals[x] = fx.load(s0, p, x.Type(), x.Name())
+		} else if a := fx.privRoot(x.X); a != nil {
+			if v, ok := st.Priv[a]; ok {
+				s0 := st.clone()
+				s0.H, s0.Hs = v[0], v[1]
+				fx.vals[x] = fx.load(s0, p, x.Type(), x.Name())
+			} else {
+				fx.vals[x] = fx.load(st, p, x.Type(), x.Name())
+			}
 		} else {
 			fx.vals[x] = fx.load(st, p, x.Type(), x.Name())
 		}
@@ -664,7 +685,7 @@ func (fx *FX) execConvert(st *State, x *ssa.Convert) {
 	case VSlice:
 		if tb, ok := to.(*types.Basic); ok && tb.Info()&types.IsString != 0 { // string(b)
 			fx.readCheck(st, tv.Ref, x.Pos(), "string(bytes)")
-			fx.set(x, VStr{app(SSeq, "view", sel(st.H, tv.Ref), tv.Off, tv.Len)})
+			fx.set(x, VStr{app(SSeq, "view", sel(fx.rH(st, tv.Ref), tv.Ref), tv.Off, tv.Len)})
 			return
 		}
 	case VPtr:
